@@ -403,7 +403,9 @@ struct FnEmit {
     // (CBMC identifies loops by backward jumps; with LLVM's block layout, exits that jump backwards made inner-loop
     // unwinding counters accumulate across outer iterations.) Blocks unreachable from the entry are not emitted.
     ReversePostOrderTraversal<Function*> rpo(&F);
-    for (BasicBlock* bp : rpo) {
+    std::vector<BasicBlock*> order(rpo.begin(), rpo.end());
+    if (getenv("LL2C_LAYOUT_ORDER")) { order.clear(); for (BasicBlock& b0 : F) order.push_back(&b0); }   // (debugging aid: LLVM's own block layout)
+    for (BasicBlock* bp : order) {
       BasicBlock& b = *bp;
       body << bbn[&b] << ": ;\n";
       for (PHINode& p : b.phis()) body << "  " << names[&p] << " = " << names[&p] << "_in;\n";
